@@ -134,13 +134,11 @@ impl std::ops::Rem<Interval> for Date {
 
 impl Display for Date {
     fn fmt(&self, f: &mut Formatter<'_>) -> std::fmt::Result {
-        write!(
-            f,
-            "{}",
-            NaiveDate::from_num_days_from_ce_opt(self.0 + UNIX_EPOCH_DAYS)
-                .unwrap()
-                .format("%Y-%m-%d")
-        )
+        // `Date` wraps any `i32`, chrono only represents years -262143..=262142.
+        match (self.0.checked_add(UNIX_EPOCH_DAYS)).and_then(NaiveDate::from_num_days_from_ce_opt) {
+            Some(date) => write!(f, "{}", date.format("%Y-%m-%d")),
+            None => write!(f, "<date out of range: {} days>", self.0),
+        }
     }
 }
 
